@@ -207,6 +207,15 @@ func F2(rc *RC) {
 				if v, ok := locals[arg]; ok {
 					arg = v
 				}
+				// a loop over a local table of the values: `for _, f := range []interface{}{a, b, …} { enc.Encode(f) }`
+				if i := strings.Index(arg, "[@r"); i > 0 && amp == "" {
+					if tbl, ok := locals[arg[:i]]; ok && strings.HasPrefix(tbl, "[]") && strings.HasSuffix(tbl, "}") {
+						if j := strings.Index(tbl, "{"); j > 0 {
+							got = append(got, splitArgs(tbl[j+1:len(tbl)-1])...)
+							continue
+						}
+					}
+				}
 				got = append(got, amp+arg)
 			}
 		}
@@ -218,6 +227,8 @@ func F2(rc *RC) {
 		}
 		if strings.Join(got, " | ") == strings.Join(wantEnc, " | ") {
 			rc.S.Ok("F2", "tensor.(*Dense).GobEncode", pos, strings.Join(got, " | "))
+		} else if len(got) != len(wantEnc) {
+			rc.S.Undec("F2", "tensor.(*Dense).GobEncode", pos, fmt.Sprintf("%d Encode calls recognised where the reviewed encoder has %d (restructured): the sequence [%s] is not compared", len(got), len(wantEnc), strings.Join(got, " | ")))
 		} else {
 			rc.S.Viol("F2", "tensor.(*Dense).GobEncode", pos, fmt.Sprintf("encoded sequence is [%s], want [%s]: a value other than the tensor's own metadata is put on the wire", strings.Join(got, " | "), strings.Join(wantEnc, " | "))).Sig = strings.Join(got, " | ")
 		}
